@@ -198,6 +198,7 @@ class Report:
         self.assumptions = []
         self.notes = []
         self.findings = load_findings(prop)
+        shutil.rmtree(os.path.join(VERIF, "replays", prop), ignore_errors=True)
 
     def violation(self, key, what, replay=None):
         """key: canonical string identifying the failing case (matched exactly with known witnesses)."""
